@@ -12,8 +12,9 @@ export VERIF_REPO="$REPO"
 for d in seeded/${PAT}*; do
   id=$(basename "$d"); prop=${id%%-*}
   [ -f "$d/patch.diff" ] || continue
-  ( cd "$REPO" && git checkout -q -- . && git clean -fdq -- src rsactor-derive tests examples && git apply "$HERE/$d/patch.diff" ) || { echo "$id :: patch does not apply"; continue; }
+  # the stored changes of rounds 1-11 were written against 70d7802 (before the C06 repair): fall back to a 3-way merge
+  ( cd "$REPO" && git reset -q && git checkout -q -- . && git clean -fdq -- src rsactor-derive tests examples && { git apply "$HERE/$d/patch.diff" 2>/dev/null || { git apply --3way "$HERE/$d/patch.diff" >/dev/null 2>&1 && git reset -q; }; } ) || { ( cd "$REPO" && git reset -q && git checkout -q -- . ); echo "$id :: patch does not apply (written against 70d7802)"; continue; }
   out=$(./run.sh quick "$prop" 2>&1); rc=$?
   echo "$id :: rc=$rc :: $(echo "$out" | grep -E "VIOLATION|KNOWN|INFRA" | head -1 | cut -c1-140) | $(echo "$out" | tail -1 | cut -c1-110)"
-  ( cd "$REPO" && git checkout -q -- . && git clean -fdq -- src rsactor-derive tests examples )
+  ( cd "$REPO" && git reset -q && git checkout -q -- . && git clean -fdq -- src rsactor-derive tests examples )
 done
